@@ -29,7 +29,7 @@ RULE = (
 )
 ASSUMPTIONS = ["member option values are JSON scalars / lists; the class reports keys() on the instance's own options"]
 FLOORS = {"instances_checked": (3000, 60000), "pairs_compared": (6000, 120000), "pairs_differing_only_in_relevant_dotted_key": (600, 12000),
-          "pairs_differing_only_in_irrelevant_key": (1500, 30000), "union_checks": (3000, 60000), "repr_checks": (3000, 60000), "pairs_same_options_entries_reordered": (1500, 30000), "container_constants_checked": (1500, 30000), "option_members_edited": (3000, 60000)}
+          "pairs_differing_only_in_irrelevant_key": (1500, 30000), "union_checks": (3000, 60000), "repr_checks": (3000, 60000), "pairs_same_options_entries_reordered": (1500, 30000), "container_constants_checked": (1500, 30000), "option_members_edited": (3000, 60000), "caller_dictionary_edited_before_first_use": (3000, 60000)}
 SHARDS_QUICK = 8
 
 PRISTINE = {}  # id(constant object placed in a class body) -> deep copy taken at declaration
@@ -213,6 +213,28 @@ def instance_case(ctx, cls, members, raw, o):
         return None
     # the owner of an instance may edit the values of its option members: equality, repr and the caller's dictionary
     # are about the options the instance was built from and must not follow such edits
+    # the caller keeps using - and editing - the dictionary it built an instance from: what the instance is (==, repr)
+    # was fixed when it was built, even if nobody has looked at it yet
+    o_l = copy.deepcopy(o)
+    late = cls(o_l)
+    from ..hostile import _set
+
+    for k in sorted(exp_keys)[:2]:
+        try:
+            _set(o_l, k, "edited-after-instantiation")
+        except Exception:  # noqa: BLE001
+            pass
+    o_l["A"] = "edited-after-instantiation"
+    o_l.pop("B", None)
+    fresh = cls(copy.deepcopy(o))
+    ctx.count("caller_dictionary_edited_before_first_use")
+    try:
+        same_ = (late == fresh, repr(late) == repr(fresh))
+    except Exception as e:  # noqa: BLE001
+        same_ = f"{type(e).__name__}: {e}"
+    if same_ != (True, True):
+        ctx.violation("equality", f"an instance built from o, whose caller then edited o in place before the first ==/repr: (== a fresh C(o), same repr) = {same_}", W)
+        return None
     o_x = copy.deepcopy(o)
     x, y = cls(o_x), cls(copy.deepcopy(o))
     rep_x = repr(x)
